@@ -24,6 +24,7 @@ import Driver.GCMBytes
 import Driver.GCMTop
 import Driver.SessionState
 import Driver.SM2Codec
+import Driver.P256Limbs
 open Gmsm
 
 def dispatch (toks : List String) : String :=
@@ -70,6 +71,9 @@ def dispatch (toks : List String) : String :=
     | some r => r
     | none =>
     match Driver.sm2CodecDispatch toks with
+    | some r => r
+    | none =>
+    match Driver.p256LimbsDispatch toks with
     | some r => r
     | none =>
     match toks with
